@@ -222,6 +222,61 @@ pub fn run_tuple(srcs: &[&Src], kinds: &[Kind], collect_forms: bool) -> Result<u
                 };
                 check_rows(&format!("map op().add() {:?}", op), got, &want)?;
                 n += 4;
+                // builders that already hold streams and are then extended: op() / push
+                // for the first stream, extend with the middle ones (an EMPTY extend
+                // before and after), push for the last - every split point
+                let k = fsts.len();
+                for split in 1..=k {
+                    let last = if split < k { k - 1 } else { k };
+                    let mut b = fsts[0].op();
+                    b.extend(std::iter::empty::<&Fst<&[u8]>>());
+                    b.extend(fsts[1..split.min(last).max(1)].iter());
+                    b.extend(fsts[split.min(last).max(1)..last].iter());
+                    b.extend(std::iter::empty::<&Fst<&[u8]>>());
+                    if last < k {
+                        b.push(&fsts[k - 1]);
+                    }
+                    let got = match op {
+                        Op::Union => drain_op(b.union())?,
+                        Op::Intersection => drain_op(b.intersection())?,
+                        Op::Difference => drain_op(b.difference())?,
+                        Op::SymmetricDifference => drain_op(b.symmetric_difference())?,
+                    };
+                    check_rows(&format!("raw op() + extend x2 (split {}) + push {:?}", split, op), got, &want)?;
+                    let mut b = maps[0].op();
+                    b.extend(std::iter::empty::<&Map<&[u8]>>());
+                    b.extend(maps[1..split.min(last).max(1)].iter());
+                    b.extend(maps[split.min(last).max(1)..last].iter());
+                    b.extend(std::iter::empty::<&Map<&[u8]>>());
+                    if last < k {
+                        b.push(&maps[k - 1]);
+                    }
+                    let got = match op {
+                        Op::Union => drain_op(b.union())?,
+                        Op::Intersection => drain_op(b.intersection())?,
+                        Op::Difference => drain_op(b.difference())?,
+                        Op::SymmetricDifference => drain_op(b.symmetric_difference())?,
+                    };
+                    check_rows(&format!("map op() + extend x2 (split {}) + push {:?}", split, op), got, &want)?;
+                    let mut b = sets[0].op();
+                    b.extend(std::iter::empty::<&Set<&[u8]>>());
+                    b.extend(sets[1..split.min(last).max(1)].iter());
+                    b.extend(sets[split.min(last).max(1)..last].iter());
+                    b.extend(std::iter::empty::<&Set<&[u8]>>());
+                    if last < k {
+                        b.push(&sets[k - 1]);
+                    }
+                    let got = match op {
+                        Op::Union => drain_keys(b.union())?,
+                        Op::Intersection => drain_keys(b.intersection())?,
+                        Op::Difference => drain_keys(b.difference())?,
+                        Op::SymmetricDifference => drain_keys(b.symmetric_difference())?,
+                    };
+                    if got != wantk {
+                        return Err(format!("set op() + extend x2 (split {}) + push {:?} gave {:?} expected {:?}", split, op, got, wantk));
+                    }
+                    n += 3;
+                }
             }
         }
         Ok(n)
@@ -303,7 +358,7 @@ pub fn replay(case: &Value) -> Result<String, String> {
 pub fn plan(tier: Tier) -> Plan {
     let mut p = Plan::new("C05", "model_checking");
     let thorough = tier.thorough();
-    p.rule = "every k-tuple (k=1..4) of subsets of U4={'',a,ab,b} and (k=5,6) of U3={'',a,b}, and (k=2,3) of Unul={'',00,a,a00} (keys differing only in trailing NUL bytes) and of Ulong (8-11 byte keys sharing a 7-byte prefix), values 10*stream+key-index and constant 5 (heap ties), stream kinds {whole FST, range().ge(''), search(AlwaysMatch), user Vec streamer} (all kind vectors for k<=3 quick / k<=4 thorough, a rotating vector above), four operations through raw/map/set OpBuilder (+FromIterator/Extend/op().add() forms), IndexedValue lists compared as sets; is_disjoint/is_subset/is_superset for all ordered pairs x stream kinds; finite family of 7..40, 64, 100, 257, 300 operand streams over a 6-key universe (4 layouts each). non-trivial = tuples with k >= 2 and at least two non-empty streams".into();
+    p.rule = "every k-tuple (k=1..4) of subsets of U4={'',a,ab,b} and (k=5,6) of U3={'',a,b}, and (k=2,3) of Unul={'',00,a,a00} (keys differing only in trailing NUL bytes) and of Ulong (8-11 byte keys sharing a 7-byte prefix), values 10*stream+key-index and constant 5 (heap ties), stream kinds {whole FST, range().ge(''), search(AlwaysMatch), user Vec streamer} (all kind vectors for k<=3 quick / k<=4 thorough, a rotating vector above), four operations through raw/map/set OpBuilder (+FromIterator/Extend/op().add() forms, and builders that already hold streams extended twice - also with empty iterators - at every split point, then pushed to), IndexedValue lists compared as sets; is_disjoint/is_subset/is_superset for all ordered pairs x stream kinds; finite family of 7..40, 64, 100, 257, 300 operand streams over a 6-key universe (4 layouts each). non-trivial = tuples with k >= 2 and at least two non-empty streams".into();
     p.assumptions = vec!["order inside an IndexedValue list is unspecified and is normalised before comparison".into()];
     let u4: Vec<Key> = vec![b"".to_vec(), b"a".to_vec(), b"ab".to_vec(), b"b".to_vec()];
     let u3: Vec<Key> = vec![b"".to_vec(), b"a".to_vec(), b"b".to_vec()];
